@@ -13,26 +13,23 @@
    Besides Announce the only things that happen to a tracker are the passage of time and
    the peer store's two cleanup passes; they are inherited from PeerStore.
 
-   strictSelf.  The required behaviour (property C26: "never lists the announcing peer") is
-   strictSelf = TRUE and that is what the design model proves and what dedicated recorded
-   histories are validated against.  strictSelf = FALSE additionally admits the as-built
-   behaviour of known finding F26 (the announcer is handed out to itself whenever the store
-   draws it, because SortPeers compares pointers) and exists only so that the bulk of the
-   recorded histories can be validated against all OTHER clauses instead of stopping at
-   their first incomplete announcement; see known_findings.d/C26.json.                  *)
+   History: until /repo commit 483b8c2 SortPeers compared pointers and an incomplete announcer
+   was handed out to itself whenever the store drew it (finding F26, known_findings.d/C26.json,
+   fixes/F26.diff).  While that was open this module carried a flag admitting the as-built
+   behaviour in the bulk of the recorded histories; with the repair committed the flag is gone
+   and every recorded history is validated against the property as stated.                  *)
 EXTENDS PeerStore
 
 CONSTANTS OriginIds,   \* origin peers "o1".."oN" (their address is named like them); disjoint from Peers
           Limits,      \* handout limits (announce_limit >= 1; 0 means "default 50" in the code)
-          Policies,    \* subset of {"default", "completeness"}
-          SelfModes    \* values strictSelf may take
+          Policies     \* subset of {"default", "completeness"}
 ASSUME OriginIds \cap Peers = {}
 
 VARIABLES orig,        \* [Hashes -> SUBSET OriginIds]  origins currently seeding the torrent's blob
-          limit, policy, strictSelf,
+          limit, policy,
           hand         \* the last call if it was an Announce: arguments and reply
-hcfg  == <<orig, limit, policy, strictSelf>>
-hvars == <<ann, last, now, ttl, reply, orig, limit, policy, strictSelf, hand>>
+hcfg  == <<orig, limit, policy>>
+hvars == <<ann, last, now, ttl, reply, orig, limit, policy, hand>>
 
 NoHand == [op |-> "none", h |-> "", p |-> "", complete |-> FALSE, res |-> "", peers |-> <<>>]
 OriginInfo(o)     == [p |-> o, addr |-> o, origin |-> TRUE, complete |-> TRUE]
@@ -44,7 +41,7 @@ Sorted(rep) == \A i, j \in 1..Len(rep) : i < j => Prio(rep[i]) <= Prio(rep[j])
 
 HInit == /\ Init
          /\ orig \in [Hashes -> SUBSET OriginIds]
-         /\ limit \in Limits /\ policy \in Policies /\ strictSelf \in SelfModes
+         /\ limit \in Limits /\ policy \in Policies
          /\ hand = NoHand
 
 (* The reply to an announcement by p (complete flag c) for h, given the torrent's announcements
@@ -59,8 +56,7 @@ HandoutOK(st, h, p, c, res, rep) ==
           IN /\ \A i, j \in 1..Len(rep) : i # j => rep[i].p # rep[j].p
              /\ ogs = orig[h]
              /\ ags \subseteq known
-             /\ \/ p \notin ags /\ Cardinality(ags) \in {k - 1, k}      \* k drawn, the announcer (if drawn) removed
-                \/ ~strictSelf /\ p \in ags /\ Cardinality(ags) = k     \* as built (F26): the announcer stays
+             /\ p \notin ags /\ Cardinality(ags) \in {k - 1, k}         \* k drawn, the announcer (if drawn) removed
              /\ \A i \in 1..Len(rep) : rep[i] = IF rep[i].origin THEN OriginInfo(rep[i].p) ELSE AgentInfo(st, rep[i].p)
              /\ Sorted(rep)
 
@@ -69,7 +65,7 @@ Handouts(st, h, p, c) ==
   ELSE LET known   == DOMAIN st
            k       == Min(limit, Cardinality(known))
            samples == {S \in SUBSET known : Cardinality(S) = k}
-           agsets  == {S \ {p} : S \in samples} \cup (IF strictSelf THEN {} ELSE {S \in samples : p \in S})
+           agsets  == {S \ {p} : S \in samples}
            members(A) == {AgentInfo(st, q) : q \in A} \cup {OriginInfo(o) : o \in orig[h]}
        IN UNION {{f \in Orderings(members(A)) : Sorted(f)} : A \in agsets}
 
@@ -89,13 +85,13 @@ HSpec == HInit /\ [][HNext]_hvars
 ----------------------------------------------------------------------------
 HTypeOK == /\ TypeOK /\ reply = NoReply
            /\ orig \in [Hashes -> SUBSET OriginIds] /\ limit \in Limits
-           /\ policy \in Policies /\ strictSelf \in SelfModes
+           /\ policy \in Policies
 
 (* Property C26, clause by clause, on the reply of the last announcement *)
 IsAnn == hand.op = "announce"
 Ids(rep) == {rep[i].p : i \in 1..Len(rep)}
 \* never lists the announcing peer
-NoSelf == IsAnn /\ strictSelf => hand.p \notin Ids(hand.peers)
+NoSelf == IsAnn => hand.p \notin Ids(hand.peers)
 \* never lists any peer twice
 NoDup == IsAnn => \A i, j \in 1..Len(hand.peers) : i # j => hand.peers[i].p # hand.peers[j].p
 \* holds at most the configured number of agents plus the blob's origins
